@@ -17,6 +17,10 @@ CLAIMED = {
    text="Every boolean produced by the real receive-window and group-sender-table code is compared, step by step, with a reference written from the statement over exhaustively enumerated short histories around a window edge plus millions of biased random histories (duplicates, re-ordering, jumps of any size, values near 0 / 2^31 / 2^32-1, roll-over, evictions). Held = the oracle was silent on all of them.",
    note="Reference model (60 lines) and LRU eviction rule are trusted; runs explore histories up to length 300, not all histories.",
    tech="runtime monitoring: reference-model oracle over enumerated + random counter histories", ref="DESIGN.md §3 C04"),
+ "C19": dict(cat="exploration",
+   text="A harness-side Matter-TLV certificate writer (every field a knob) produces valid chains and chains departing from validity in exactly one of 70 classes (signature bit, issuer/subject name, key ids, fabric/node id, validity edges, CA flag, key usages, path length, critical extension, swapped/repeated certificates, leaf as authority, foreign root, CSR key, existing fabric); the real verifier (verify_chain_start..finalise) and the real AddNOC / UpdateNOC paths of the fail-safe are compared with a reference predicate written from the statement. Held = accept/reject agrees on every chain and no panic.",
+   note="Trusted: reference predicate, own certificate writer (TBS obtained from rs-matter's as_asn1), rustcrypto ECDSA. CASE's own validate_certs is driven by C01, not here. Not judged (notes): ICAC/RCAC fabric-id mismatch, node id range, RCAC used as ICAC.",
+   tech="runtime monitoring: differential oracle (reference validity predicate) over generated certificate chains with single departures", ref="DESIGN.md §3 C19"),
 }
 
 NOT_YET = "check not built yet in this framework (work in progress; planned, see DESIGN.md §3)"
